@@ -1,10 +1,10 @@
 use std::{env, fs, path::PathBuf};
 
 fn main() {
-    let repo = env::var("VERIF_REPO").unwrap_or_else(|_| "/repo".to_string());
+    // `.repo` next to this crate's parent manifest is a symlink to the repository (./check points it at ${VERIF_REPO:-/repo})
+    let repo = format!("{}/../.repo", env::var("CARGO_MANIFEST_DIR").unwrap());
     let src = format!("{repo}/plugin/src/lib.rs");
     println!("cargo:rerun-if-changed={src}");
-    println!("cargo:rerun-if-env-changed=VERIF_REPO");
     let text = fs::read_to_string(&src).unwrap_or_else(|e| panic!("{src}: {e}"));
     // inner attributes are not allowed in an included file
     let body: String = text.lines().filter(|l| !l.trim_start().starts_with("#![")).map(|l| format!("{l}\n")).collect();
